@@ -71,7 +71,9 @@ def finish_epoch(rng, v, a, msgs, vers, force_pad):
         vers[1] += 1
     nframes = sum(1 for m in out if m["k"] in ("v", "a"))
     pad = 0
-    if nframes < 17 and (v == "none" or a == "none" or force_pad):
+    if force_pad == "short" and (v == "none" or a == "none") and nframes >= 2:
+        pad = 0        # the epoch ends while lal is still probing the stream: it has to come out when the publisher leaves
+    elif nframes < 17 and (v == "none" or a == "none" or force_pad):
         pad = 18 - nframes
     elif v != "none" and not any(m["k"] == "v" and m["key"] for m in out):
         pad = 4
@@ -139,7 +141,8 @@ def concretise(ctx, plan, acts, sc_id, big_budget):
     t2_in = any(x["name"] == "Join" for x in acts)
     for i, e in enumerate(epochs):
         v, a = plan[i]
-        msgs = finish_epoch(rng, v, a, e["msgs"], vers, rng.random() < 0.3)
+        x = rng.random()
+        msgs = finish_epoch(rng, v, a, e["msgs"], vers, "short" if x < 0.15 else x < 0.4)
         if i > 0:
             gap = []
             if epochs[i - 1].get("gapjoin_after"):
@@ -164,6 +167,11 @@ def concretise(ctx, plan, acts, sc_id, big_budget):
             t2_in = True
         if not rtsp_in_gap:
             body.insert(rng.randrange(0, len(body) + 1), {"name": "JoinRtsp"})
+        if i == 0 and len(plan) > 1:
+            # a second RTSP subscriber that joins under the first publisher and stays attached across the republish
+            k = rng.randrange(0, len(body) + 1)
+            body.insert(k, {"name": "DescR"})
+            body.insert(rng.randrange(k + 1, len(body) + 1), {"name": "PlayR"})
         # sizes and timestamps of this publisher
         pubs = [s for s in body if s["name"] == "Pub"]
         for s in pubs:
@@ -217,7 +225,7 @@ def directed(ctx, sc0):
                 msgs.append(hdr_msg("vsh", ver))
             if a == "aac":
                 msgs.append(hdr_msg("ash", 1 + (i + pi) % 3))
-            for j in range(20):
+            for j in range(9 if (pi >= 5 and (v == "none" or a == "none")) else 20):   # the last two plans: a short single-track epoch
                 if v != "none" and (a == "none" or j % 2 == 0):
                     msgs.append(vid_msg(j % 8 == 0, "dir"))
                 else:
@@ -233,6 +241,9 @@ def directed(ctx, sc0):
                 body.append({"name": "Pub", "m": m, "ts": t})
             if i == 0 or pi % 2 == 1:
                 body.insert(3 + pi % 4, {"name": "JoinRtsp"})
+            if i == 0:
+                body.insert(5, {"name": "DescR"})        # stays attached across the republish
+                body.insert(7 + pi % 3, {"name": "PlayR"})
             if i == 1 and pi % 2 == 1:
                 body.insert(18, {"name": "Join", "c": "t2"})     # late in the later epoch (past lal's probe stage), a key frame to come
             steps += body
@@ -368,7 +379,7 @@ def run_republish(ctx):
     evs = [r for r in rows if r.get("ev") in ("Pub", "PubLeave")]
     nts = sum(len(o["frames"]) for r in evs for o in r["out"].values())
     nhls = sum(len(r["hls"]["frames"]) for r in rows if r.get("ev") == "PubLeave")
-    nrg = sum(len(r["rtp"]["rg"]["frames"]) for r in evs)
+    nrg = sum(len(r["rtp"]["rg"]["frames"]) + len(r["rtp"].get("rh", {}).get("frames", [])) for r in evs)
     nsdp = sum(len(r["rtp"]["rg"]["sdp"]) for r in evs)
     nep = sum(1 for r in rows if r.get("ev") == "PubLeave")
     ctx.log("driver: %d republish scenarios, %d epochs, %d events; %d TS frames at HTTP-TS consumers, %d in HLS segments, "
@@ -409,4 +420,8 @@ def run_republish(ctx):
         "republish epochs: the Group object survives because HTTP-TS subscribers stay attached; consecutive publishers are RTMP "
         "publishers (Group.DelRtmpPubSession / AddRtmpPubSession); a staying HTTP-TS player keeps what it learnt from PAT / PMT, "
         "continuity counters may restart with the new publisher; RTSP subscribers are judged for the epoch they join in",
+        "an RTSP subscriber that stays attached across a republish (rh) cannot be described again and the properties do not ask "
+        "for its session to be ended: only 'nothing of the predecessor reaches it' is decided (every frame is one of the present "
+        "publisher, per track in order and complete); its stale description, the new SSRC / sequence / timestamp base, dropped "
+        "tracks it never set up and a start without key frame are unspecified, not judged",
     ]
